@@ -8,9 +8,9 @@ Definition enc_value (v : value) : data :=
   match v with Some s => DStr s | None => DList [] end.
 Definition enc_result (r : result) : data :=
   match r with
-  | ROk a => DList [DStr "Ok"; of_list enc_value (defs a); of_list enc_value (paths a);
+  | ROk a => DList [DStr "Ok"; of_list enc_value (defs a); of_list enc_value (List.app (paths a) (syspaths a));
                     of_list enc_value (files a); of_list DStr (extras a)]
-  | RWarned a => DList [DStr "ArgErr"; of_list enc_value (defs a); of_list enc_value (paths a);
+  | RWarned a => DList [DStr "ArgErr"; of_list enc_value (defs a); of_list enc_value (List.app (paths a) (syspaths a));
                         of_list enc_value (files a)]
   | RRaise => DList [DStr "Raise"]
   | RExit => DList [DStr "SystemExit"]
